@@ -159,6 +159,61 @@ pub fn oracle_c07(cfg: &EwCfg, tr: &EwTrace, expect_echo: bool) -> Vec<Violation
     out
 }
 
+/// User-visible form of C02/C11: on a network whose faults never impose a silence as long as the
+/// active time-out, an established connection survives (no Error event on either side) and every
+/// Reliable packet submitted on it is delivered by the end of the run.
+pub fn oracle_survive(cfg: &EwCfg, tr: &EwTrace, clause: &str) -> Vec<Violation> {
+    let mut out = Vec::new();
+    let only_while_undelivered = clause.starts_with("C02");
+    for i in 0..cfg.clients.len() {
+        let interfered = tr.calls.iter().any(|c| matches!(c.act, Act::CDisconnect(k) | Act::CDisconnectNow(k) | Act::SDisconnect(k) | Act::SDisconnectNow(k) | Act::SDrop(k) | Act::Forget(k) if k == i));
+        if interfered || tr.gens[i] != 1 { continue; }
+        // Reliable packets and when they were delivered
+        let mut cnt: std::collections::HashMap<(usize, u8), u32> = Default::default();
+        let mut undelivered_at_end: Vec<String> = Vec::new();
+        let mut last_delivery_round = 0usize; let mut all_delivered = true;
+        for c in tr.calls.iter() {
+            let (dir, chn, size, mode) = match c.act { Act::CSend(k, chn, m, s) if k == i => (0usize, chn, s, m), Act::SSend(k, chn, m, s) if k == i => (1, chn, s, m), _ => continue };
+            let idx = { let e = cnt.entry((dir, chn)).or_insert(0); let v = *e; *e += 1; v };
+            if mode != SendMode::Reliable { continue; }
+            if dir == 1 && !tr.s_connect_round[i].map_or(false, |r| r < c.round) { continue; }
+            let p = ew_payload(dir, i, chn, idx, size);
+            let evs = if dir == 0 { &tr.sev[i] } else { &tr.cev[i] };
+            let hits: Vec<usize> = evs.iter().filter(|e| matches!(&e.ev, Ev::Receive(d) if d[..] == p[..])).map(|e| e.round).collect();
+            if hits.len() != 1 { all_delivered = false; undelivered_at_end.push(format!("ch{} #{} ({} B, {}) delivered {} times", chn, idx, size, if dir == 0 { "client->server" } else { "server->client" }, hits.len())); }
+            else { last_delivery_round = last_delivery_round.max(hits[0]); }
+        }
+        let t_cfg = cfg.clients[i].active_timeout_ms.min(cfg.server.active_timeout_ms);
+        let mut error_seen = false;
+        let mut sides = vec![("client", &tr.cev[i], false), ("server", &tr.sev[i], true)];
+        // the earlier of the two Error events is the one to explain (the later one follows from the connection's death)
+        sides.sort_by_key(|s| s.1.iter().find(|e| matches!(e.ev, Ev::Error(_))).map_or(u64::MAX, |e| e.t_ms));
+        for (who, evs, peer_is_client) in sides {
+            if let Some(e) = evs.iter().find(|e| matches!(e.ev, Ev::Error(_))) {
+                if error_seen { continue; }
+                error_seen = true;
+                if only_while_undelivered && all_delivered && e.round > last_delivery_round { continue; }
+                // Why was the peer silent? Look at the peer's sender state over the silent period.
+                let probes: Vec<&uflow::verif::Probe> = tr.obs.iter().filter(|o| o.t_ms + t_cfg >= e.t_ms && o.round < e.round).filter_map(|o| if peer_is_client { o.c_probe[i].as_ref() } else { o.s_probe[i].as_ref() }).collect();
+                let idle = !probes.is_empty() && probes.iter().all(|p| p.pending_len == 0 && p.resend_len == 0 && p.send_queue_len == 0);
+                // the RTO in force during the second half of the silent period decides whether a keepalive was still due in time
+                let rto_min = probes[probes.len() / 2..].iter().map(|p| p.rto_ms.unwrap_or(0)).min().unwrap_or(0);
+                if crate::lwprops::verbose() { for p in probes.iter().step_by(20) { println!("   peer probe: rate {} rto {:?} credit {} pending {} resend {} queue {}", p.send_rate, p.rto_ms, p.flush_alloc, p.pending_len, p.resend_len, p.send_queue_len); } }
+                let credit_neg = !probes.is_empty() && probes.iter().filter(|p| p.flush_alloc < 0).count() * 10 >= probes.len() * 9;
+                let rate_max = probes.iter().map(|p| p.send_rate).fold(0.0, f64::max);
+                let cause = if idle && rto_min + 2000 >= t_cfg { "peer-idle-and-its-keepalive-throttled-by-an-rto-above-the-timeout" }
+                            else if credit_neg && rate_max * (t_cfg as f64 / 1000.0) < 1472.0 * 1.5 { "peer-output-blocked-by-negative-credit-at-a-rate-below-one-frame-per-timeout" }
+                            else { "unexplained" };
+                out.push(viol(clause, format!("{}:error-event:{}", clause, cause), format!("{} {} reported {} at t={} ms although the faults of this run never silence the link for as long as the active time-out ({} ms); last deviation in round {}; silent peer during that period: idle {}, min RTO {} ms, credit negative {}, max rate {} B/s", who, i, ev_name(&e.ev), e.t_ms, t_cfg, tr.last_dev_round, idle, rto_min, credit_neg, rate_max)));
+            }
+        }
+        if !error_seen && !undelivered_at_end.is_empty() {
+            out.push(viol(clause, format!("{}:undelivered", clause), format!("connection {}: Reliable packets not delivered exactly once by the end of the run (t={} ms): {:?}; last deviation in round {}", i, tr.obs.last().map_or(0, |o| o.t_ms), undelivered_at_end, tr.last_dev_round)));
+        }
+    }
+    out
+}
+
 /// Differential clause for forged handshake frames: events and API-visible state per round must be
 /// identical to the run without the forgery.
 pub fn diff_traces(base: &EwTrace, tr: &EwTrace, what: &str) -> Vec<Violation> {
@@ -449,7 +504,7 @@ pub fn oracle_c09(cfg: &EwCfg, tr: &EwTrace) -> Vec<Violation> {
 // ------------------------------------------------------------------------------------------------
 
 pub const EO_C07: u32 = 1; pub const EO_C08: u32 = 2; pub const EO_C09: u32 = 4; pub const EO_C10: u32 = 8; pub const EO_C17: u32 = 16; pub const EO_C18: u32 = 32;
-pub const EO_ECHO: u32 = 64; pub const EO_READMIT: u32 = 128; pub const EO_KEEPALIVE: u32 = 256;
+pub const EO_ECHO: u32 = 64; pub const EO_READMIT: u32 = 128; pub const EO_KEEPALIVE: u32 = 256; pub const EO_SURVIVE_C02: u32 = 512; pub const EO_SURVIVE_C11: u32 = 1024;
 
 #[derive(Clone)]
 pub struct EwSpec { pub tag: String, pub cfg: EwCfg, pub script: Arc<Vec<EwOp>>, pub env: EwEnv, pub d: usize, pub oracles: u32, pub n_raw: usize }
@@ -485,6 +540,8 @@ pub fn eval_ew(spec: &EwSpec, tr: &EwTrace) -> Vec<Violation> {
     if o & EO_KEEPALIVE != 0 { v.extend(oracle_c10_keepalive(&spec.cfg, tr)); }
     if o & EO_C17 != 0 { v.extend(oracle_c17(&spec.cfg, tr, o & EO_READMIT != 0)); }
     if o & EO_C18 != 0 { v.extend(oracle_c18(&spec.cfg, tr, spec.n_raw)); }
+    if o & EO_SURVIVE_C02 != 0 { v.extend(oracle_survive(&spec.cfg, tr, "C02.survive")); }
+    if o & EO_SURVIVE_C11 != 0 { v.extend(oracle_survive(&spec.cfg, tr, "C11.survive")); }
     // one violation per signature
     let mut out: Vec<Violation> = Vec::new();
     for x in v { if !out.iter().any(|y| y.sig == x.sig) { out.push(x); } }
